@@ -464,3 +464,65 @@ pub fn apng_with_rect(rng: &mut Rng, cw: u32, ch: u32, fw: u32, fh: u32, fx: u32
     chunks.push(Chunk::new(b"IEND", vec![]));
     Built { name: format!("rect-c{}d{}{}-{}x{}-{}x{}@{},{}", color, depth, if interlaced { "i" } else { "n" }, cw, ch, fw, fh, fx, fy), bytes: assemble(&chunks), spec: s, palette, trns: None, frames, animated: true }
 }
+
+/// Files whose frames are a little more than `32 KiB * 2^k` of highly compressible filtered data: fdeflate has pulled the last compressed
+/// bytes in when its output buffer is full, so the last rows of a frame are released only with the end-of-sequence flush, after the reader
+/// has seen the chunk that follows the frame's data.  8-bit grey, `w` pixels wide; `frames == 0` builds a still image, otherwise an
+/// animation of that many frames (all of canvas size, first one in IDAT).  `producer` 0: constant filtered bytes as one fixed-Huffman run
+/// (`frame f` uses filter type and data byte `(f + 1) % 5`), 1: the same through zlib level 9, 2: slowly varying rows through zlib level 9.
+/// `surplus[f]` extra filtered rows are appended to frame f's stream, `missing[f]` rows are left out (both tolerated / refused by the decoder;
+/// `frames[f]` always describes the complete frame).
+pub fn held_back_tail_file(w: u32, h: u32, frames: u32, producer: u8, surplus: &[u32], missing: &[u32]) -> Built {
+    let s = ImageSpec { w, h, color: 0, depth: 8, interlaced: false };
+    let mut chunks = vec![ihdr(w, h, 8, 0, 0)];
+    if frames > 0 {
+        chunks.push(actl_chunk(frames, 0));
+    }
+    let mut exp = vec![];
+    let mut seq = 0u32;
+    for f in 0..frames.max(1) {
+        let c = ((f + 1) % 5) as u8;
+        let extra = surplus.get(f as usize).copied().unwrap_or(0);
+        let less = missing.get(f as usize).copied().unwrap_or(0);
+        let mut stream = vec![];
+        let mut rows = vec![];
+        let mut pixels = vec![];
+        let mut prior: Vec<u8> = vec![];
+        for r in 0..h + extra {
+            let (ft, filt): (u8, Vec<u8>) = if producer < 2 { (c, vec![c; w as usize]) } else {
+                ((f % 3) as u8 * 2, (0..w).map(|x| ((r / 64) as u8).wrapping_mul(3).wrapping_add(f as u8 * 40).wrapping_add((x / 8) as u8)).collect())
+            };
+            if r < h - less.min(h) || r >= h {
+                stream.push(ft);
+                stream.extend_from_slice(&filt);
+            }
+            if r < h {
+                let row = recon_ref(ft, 1, &prior, &filt);
+                pixels.extend_from_slice(&row);
+                rows.push(row.clone());
+                prior = row;
+            }
+        }
+        let z = if producer == 0 { crate::c01::zlib_fixed_run(&stream) } else { zlib_flate2(&stream, 9) };
+        let fc = if frames > 0 {
+            let fc = (seq, w, h, 0u32, 0u32, 1u16, 10u16, 0u8, 0u8);
+            chunks.push(fctl_chunk(fc.0, fc.1, fc.2, fc.3, fc.4, fc.5, fc.6, fc.7, fc.8));
+            seq += 1;
+            Some(fc)
+        } else { None };
+        if f == 0 { chunks.push(Chunk::new(b"IDAT", z)); } else { chunks.push(fdat_chunk(seq, &z)); seq += 1; }
+        exp.push(FrameExp { fctl: fc, w, h, pixels, rows });
+    }
+    chunks.push(Chunk::new(b"IEND", vec![]));
+    Built { name: format!("held-back-tail-{}x{}-f{}-p{}-s{:?}-m{:?}", w, h, frames, producer, surplus, missing), bytes: assemble(&chunks), spec: s, palette: None, trns: None, frames: exp, animated: frames > 0 }
+}
+
+/// the heights at which `h` rows of `rowlen` bytes are just above 32, 64 and 128 KiB
+pub fn heights_just_above_buffer_sizes(rowlen: usize, spread: u32) -> Vec<u32> {
+    let mut v = vec![];
+    for k in [32768usize, 65536, 131072] {
+        let h0 = ((k + rowlen - 1) / rowlen) as u32;
+        for d in 0..=spread { v.push(h0 + d); }
+    }
+    v
+}
